@@ -398,41 +398,65 @@ _ZERO = {"0", "L.LiteralInt(0)", "LiteralInt(0)"}
     min_instances=30,
 )
 def table_index(repo, res):
-    sites = [(repo.mod("ffcx.codegeneration.access"), "FFCXBackendAccess.table_access"),
-             (repo.mod("ffcx.codegeneration.symbols"), "FFCXBackendSymbols.element_table")]
-    for m, q in sites:
-        f = m.func(q)
+    # both accessors are interpreted on sample table records (objects built by their own constructors); the access expression is then
+    # evaluated against a table of symbolic entries with concrete entity_local_index / quadrature_permutation and loop variables
+    from ..absint import Node as _N, Raised as _Rs, Rat as _Rat
+    from ..lnexec import Exec as _Exec, ExecError as _ExecError
+    from .genkernel import _world as _gk_world
+
+    am_, sm_ = repo.mod("ffcx.codegeneration.access"), repo.mod("ffcx.codegeneration.symbols")
+    sites = [(am_, am_.func("FFCXBackendAccess.table_access")), (sm_, sm_.func("FFCXBackendSymbols.element_table"))]
+    ELI, QP = {(0,): 1, (1,): 2}, {(0,): 1, (1,): 0}
+    NQ_, ND_ = 3, 2
+    for m, f in sites:
         res.functions.add(f.key)
+        q = f.qualname
         for uni in (False, True):
             for pw in (False, True):
                 for perm in (False, True):
                     for restr in (None, "+", "-"):
-                        atoms = {"tabledata.is_uniform": uni, "tabledata.is_piecewise": pw, "tabledata.is_permuted": perm, "restriction": restr}
                         key = f"{f.key}:index:uniform={uni},piecewise={pw},permuted={perm},restriction={restr}"
                         res.ob(key)
-                        triples = _index_triples(f.node, atoms)
-                        if not triples:
-                            raise AnalysisError(f"{q}: no subscript of element_tables[tabledata.name] found on the paths of {atoms}")
-                        for qp, ent, iq in sorted(triples):
-                            if perm:
-                                want = "1" if restr == "-" else "0"
-                                mm = re.fullmatch(r"(?:self\.)?(?:symbols\.)?quadrature_permutation\[(\d)\]", qp)
-                                if not mm or mm.group(1) != want:
-                                    res.fail(key, f"{q}: permuted table indexed with `{qp}` for restriction {restr!r}; the reference-facet permutation of "
-                                             f"side {want} (quadrature_permutation[{want}]) is required - the points of a facet expression or a one-sided "
-                                             "term would be read in the wrong order", m.line(f.node))
-                            elif qp not in _ZERO:
-                                res.fail(key, f"{q}: table without permutation axis indexed with `{qp}`", m.line(f.node))
-                            if uni:
-                                if ent not in _ZERO:
-                                    res.fail(key, f"{q}: uniform table (entity axis collapsed to 1) indexed with `{ent}`", m.line(f.node))
-                            elif not re.search(r"\.entity\(entity_type, restriction\)", ent):
-                                res.fail(key, f"{q}: entity axis indexed with `{ent}` instead of the local entity of this restriction", m.line(f.node))
-                            if pw:
-                                if iq not in _ZERO:
-                                    res.fail(key, f"{q}: piecewise table (point axis collapsed to 1) indexed with `{iq}`", m.line(f.node))
-                            elif iq in _ZERO or not re.search(r"quadrature_index\.global_index|quadrature_loop_index", iq):
-                                res.fail(key, f"{q}: point axis of a varying table indexed with `{iq}` instead of the quadrature index", m.line(f.node))
+                        for etype in ("facet", "cell", "vertex"):
+                            if etype != "facet" and restr is not None:
+                                continue
+                            it = _gk_world(repo)
+                            try:
+                                symbols = it.overrides["FFCXBackendSymbols"].fn({}, {}, {})
+                                access = it.overrides["FFCXBackendAccess"].fn(etype, "interior_facet" if etype == "facet" else etype, symbols, {})
+                                td = _N("UniqueTableReferenceT", name="FE0", is_uniform=uni, is_piecewise=pw, is_permuted=perm, tensor_factors=None, has_tensor_factorisation=False,
+                                        ttype="varying", offset=0, block_size=1, values=None, tensor_permutation=None)
+                                REAL, INT = "DataType.REAL", "DataType.INT"
+                                symbols.f["element_tables"]["FE0"] = it.construct("Symbol", ["FE0", REAL], {})
+                                if f.qualname.startswith("FFCXBackendAccess."):
+                                    iqx = it.construct("MultiIndex", [[it.construct("Symbol", ["iq", INT], {})], [NQ_]], {})
+                                    icx = it.construct("MultiIndex", [[it.construct("Symbol", ["ic", INT], {})], [ND_]], {})
+                                    out = it.call_f(f, [access, td, etype, restr, iqx, icx])
+                                    expr = out[0] if isinstance(out, tuple) else out
+                                else:
+                                    expr = it.call_f(f, [symbols, td, etype, restr])
+                                    # the caller subscripts the row with the dof index
+                                    expr = it.call_method(expr, "__getitem__", it.construct("Symbol", ["ic", INT], {}))
+                            except _Rs as e:
+                                res.fail(key, f"{q} raises ({e.what}) for a table with these flags ({etype} entity)", m.line(f.node))
+                                break
+                            P, E, Q = (2 if perm else 1), (1 if uni else 3), (1 if pw else NQ_)
+                            ex = _Exec(outputs=(), concrete={"entity_local_index": dict(ELI), "quadrature_permutation": dict(QP)}, extents={"FE0": (P, E, Q, ND_)})
+                            ex.loopvars.update({"iq": 2, "ic": 1})
+                            side = 1 if restr == "-" else 0
+                            want_idx = [QP[(side,)] if perm else 0, 0 if uni else {"facet": ELI[(side,)], "cell": 0, "vertex": ELI[(0,)]}[etype], 0 if pw else 2, 1]
+                            try:
+                                got = ex.ev(expr)
+                            except _ExecError as e:
+                                res.fail(key, f"{q}: with entity_local_index = [1, 2], quadrature_permutation = [1, 0], iq = 2, ic = 1 the access to a table stored with shape "
+                                         f"{[P, E, Q, ND_]} (permutation axis kept iff permuted, entity axis collapsed iff uniform, point axis collapsed iff piecewise) fails: {e}",
+                                         m.line(f.node))
+                                break
+                            if got != _Rat.var(f"FE0{want_idx}"):
+                                res.fail(key, f"{q} ({etype} entity): with entity_local_index = [1, 2], quadrature_permutation = [1, 0], iq = 2, ic = 1 the access reads {got!r}; expected "
+                                         f"FE0{want_idx}: the permutation of the restriction's side iff the table is permuted (else 0), the local entity of the restriction's side unless "
+                                         "uniform, the quadrature point unless piecewise", m.line(f.node))
+                                break
     # predicates and classification: interpreted on sample tables (numpy ndarray model) and compared with the definition
     et = repo.mod(ET)
     from ..absint import Interp as _I, Raised as _R
